@@ -105,19 +105,9 @@ fn run_scenario(sc: &Scenario, idx: usize, transport: &str, tr: &Tr) -> Result<(
         let r = varlink::listen(service, &a2, &cfg);
         (r, Instant::now())
     });
-    // wait for the socket to accept (without creating a connection for path sockets: wait for the file)
-    let t0 = Instant::now();
-    loop {
-        if is_path && path.exists() {
-            break;
-        }
-        if !is_path && t0.elapsed() > Duration::from_millis(60) {
-            break;
-        }
-        if t0.elapsed() > Duration::from_secs(5) {
-            return Err("listen() did not create its socket".into());
-        }
-        std::thread::sleep(Duration::from_millis(1));
+    // wait for the socket to accept, without creating a connection (it would count as one for the idle time-out)
+    if !wait_listening(&addr, Duration::from_secs(5)) {
+        return Err("listen() did not start listening on its address within 5 s".into());
     }
     let mut conns: std::collections::HashMap<usize, AnyStream> = Default::default();
     let mut streams: std::collections::HashMap<usize, std::thread::JoinHandle<Result<usize, String>>> = Default::default();
